@@ -166,6 +166,12 @@ def run(ctx):
         o0, o3 = rng.choice(perms3), rng.choice(perms3)
         cands.append({"nd": 3, "sh": sh, "np": [n1, n2], "g0": [o0] + ([rng.choice(perms3)] if rng.random() < 0.3 else []),
                       "g1": [rng.choice(perms3)] if rng.random() < 0.4 else [], "g2": [], "g3": [o3], "g3swap": rng.random() < 0.5, "two2d": True})
+    # the repository's own 4-D swapper test: two groups of THREE layouts each (multi-step routes inside a group, with and without
+    # buffer), even and uneven sizes
+    for sh in ([4, 6, 5, 6], [5, 7, 5, 7]):
+        for npg in ([2, 3], [2, 2], [3, 2]):
+            cands.append({"nd": 4, "sh": sh, "np": npg, "g0": [[1, 4, 2, 3], [1, 3, 2, 4], [4, 3, 2, 1]],
+                          "g1": [[1, 4, 2, 3], [3, 4, 2, 1], [3, 2, 4, 1]], "g2": [], "repo_test": True})
     # the driver's own grouping on several shapes / grids
     for sh in ([4, 5, 6], [5, 7, 6], [6, 6, 6], [3, 9, 4]):
         for n1 in (1, 2, 3):
@@ -177,8 +183,8 @@ def run(ctx):
     cap = 700 if quick else len(cands)
     events, meta = [], []
     stats = {"n": 0, "refused": 0, "accepted": 0}
-    for c in cands[:cap] + [x for x in cands[cap:] if x.get("driver")]:
-        run_candidate(ctx, c, rng, events, meta, stats, walklen=5 if quick else 8)
+    for c in cands[:cap] + [x for x in cands[cap:] if x.get("driver") or x.get("repo_test") or x.get("two2d")]:
+        run_candidate(ctx, c, rng, events, meta, stats, walklen=14 if c.get("repo_test") else (5 if quick else 8))
     ctx.extra.update({"candidates": len(cands), "accepted_by_constructor": stats["accepted"], "refused_by_constructor": stats["refused"]})
     ctx.log("candidates tried %d: accepted %d, refused %d; %d events" % (stats["n"], stats["accepted"], stats["refused"], len(events)))
     if stats["accepted"] < 50:
